@@ -31,17 +31,17 @@ var gfFuncs = []string{"utils.(*GaloisField).AddOrSub", "utils.(*GaloisField).Mu
 var props = []*PropDef{
 	{
 		ID:     "C01",
-		Funcs:  []string{"qr.findSmallestVersionInfo", "qr.addPaddingAndTerminator", "qr.encodeNumeric", "qr.encodeUnicode", "qr.stringToAlphaIdx$1", "qr.encodeAlphaNumeric"},
+		Funcs:  []string{"qr.findSmallestVersionInfo", "qr.addPaddingAndTerminator", "qr.encodeNumeric", "qr.encodeUnicode", "qr.stringToAlphaIdx$1", "qr.encodeAlphaNumeric", "qr.encodeAuto"},
 		Unwind: []*Unwinder{unwQR, unwQRBlocks, unwSelect},
 		Tables: []string{"qr/versionInfos", "qr/charCountBits", "qr/formatInfos", "qr/alignment", "gf/fields"},
 		Harness: []Harness{
 			{Pkg: "qr", File: "c01_qr_test.go", Run: "^TestVerifC01$", Bound: boundedNote + "full round trip through the independent ISO 18004 reader qrspec.Decode (mode encoders, terminator/padding, block split + interleave, RS validity): all strings of length <= 3 over a 12-symbol alphabet, capacity n-1/n/n+1 of every version x level x mode, sign characters, invalid UTF-8, seeded random contents"},
 		},
 		Assumptions: []string{asmBitlist, asmCoro, asmPenalty, asmRS,
-			"encodeAuto (dispatch through function values) is NOT under contract: which mode it picks rests on the bounded stand-in; the three mode encoders it calls are",
+			"qr.Encode's glue between the stages (bit stream -> blocks -> render) is covered by the stages' contracts / unwinding families and the bounded round trip, not by a contract of its own",
 			"encodeAlphaNumeric: proof-mode channel model (the consumer sees the producer's sent sequence in order; the producer goroutine is verified against its own contract and terminates)",
 			"strconv.Atoi: ASSUMED contract for strings of 1..3 bytes (digits give their decimal value; no error and a leading digit imply digits only)", "inputs of at most 10 000 000 bytes"},
-		Note: "[C] qr.render unwound for (version, level) configurations (quick: 7 versions, thorough: all 40 x 4) with symbolic codewords: the two producer goroutines of iterateModules run as coroutines; each of the 8 masked candidates equals the independent ISO layout (finder, separator, timing, alignment, dark module, format/version BCH words, zig-zag data placement, mask) module by module. [P] bit stream, for every content: encodeNumeric accepts only digit strings and emits 0001, the character count in the width of the version class, each group of three digits as 10 bits (two: 7, one: 4); encodeAlphaNumeric accepts only the 45-character set and emits 0010, the count, each pair as 11 bits (45*first+second) and a final single character as 6 bits (its producer goroutine sends the character values up to the first invalid one and closes); encodeUnicode emits 0100, the count and every byte; addPaddingAndTerminator appends up to four zero bits, zeros to the codeword boundary and the pad codewords 11101100/00010001 alternately up to the capacity of the chosen row, leaving earlier bits untouched; findSmallestVersionInfo returns a row of the requested level that holds the bits (first fit: [C]). [T] 160-row block table, char-count widths, 32 format words, 34 version words, 40 alignment lists, GF(256)/0x11D tables against ISO.",
+		Note: "[C] qr.render unwound for (version, level) configurations (quick: 7 versions, thorough: all 40 x 4) with symbolic codewords: the two producer goroutines of iterateModules run as coroutines; each of the 8 masked candidates equals the independent ISO layout (finder, separator, timing, alignment, dark module, format/version BCH words, zig-zag data placement, mask) module by module. [P] bit stream, for every content: encodeNumeric accepts only digit strings and emits 0001, the character count in the width of the version class, each group of three digits as 10 bits (two: 7, one: 4); encodeAlphaNumeric accepts only the 45-character set and emits 0010, the count, each pair as 11 bits (45*first+second) and a final single character as 6 bits (its producer goroutine sends the character values up to the first invalid one and closes); encodeUnicode emits 0100, the count and every byte; encodeAuto returns the bit stream of the mode its indicator names (numeric, alphanumeric or byte); addPaddingAndTerminator appends up to four zero bits, zeros to the codeword boundary and the pad codewords 11101100/00010001 alternately up to the capacity of the chosen row, leaving earlier bits untouched; findSmallestVersionInfo returns a row of the requested level that holds the bits (first fit: [C]). [T] 160-row block table, char-count widths, 32 format words, 34 version words, 40 alignment lists, GF(256)/0x11D tables against ISO.",
 	},
 	{
 		ID:     "C02",
@@ -147,7 +147,7 @@ var props = []*PropDef{
 		Unwind: []*Unwinder{unwEAN, unwPDF, unwAztec, unwDM, unwSelect, unwQRBlocks},
 		Funcs: append(append([]string{}, bitlistFuncs...), "utils.(*GaloisField).Multiply", "utils.(*GaloisField).Divide", "utils.(*GaloisField).Invers",
 			"twooffive.EncodeWithColor", "twooffive.Encode", "twooffive.AddCheckSum", "codabar.EncodeWithColor", "codabar.Encode", "code39.EncodeWithColor", "code39.Encode", "datamatrix.addPadding", "datamatrix.encodeText",
-			"qr.findSmallestVersionInfo", "qr.addPaddingAndTerminator", "qr.encodeNumeric", "qr.encodeUnicode", "qr.stringToAlphaIdx$1", "qr.encodeAlphaNumeric"),
+			"qr.findSmallestVersionInfo", "qr.addPaddingAndTerminator", "qr.encodeNumeric", "qr.encodeUnicode", "qr.stringToAlphaIdx$1", "qr.encodeAlphaNumeric", "qr.encodeAuto"),
 		Harness: []Harness{
 			{Pkg: "qr", File: "c01_qr_test.go", Run: "^TestVerifC10QR$", Bound: boundedNote + "no panic, result xor error, accept iff expressible in the mode and within version-40 capacity"},
 			{Pkg: "datamatrix", File: "c02_dm_test.go", Run: "^TestVerifC10DM$", Bound: boundedNote + "accept iff <= 1558 ASCII-encodation codewords"},
